@@ -142,7 +142,8 @@ theorem loadDbTaskProxy_pool (g : Graph) (s : State) (name : String) (p : Int) (
   · simp only
     split
     · rfl
-    · split <;> rfl
+    · repeat' split
+      all_goals rfl
 
 theorem holdOnSpawn_pool (s : State) (x : Proxy) (name : String) (p : Int) : (holdOnSpawn s x name p).1.pool = s.pool := by
   unfold holdOnSpawn
@@ -292,7 +293,8 @@ theorem spawnNextParentless_keeps (g : Graph) (s : State) (x : Proxy) :
     | none => exact Keeps.refl _ s
     | some np => exact spawnAndAdd_keeps g s x.name np x.flows
 
-theorem releaseHeldActive_keeps (s : State) (x : Proxy) : Keeps [(x.pt, x.name)] s (releaseHeldActive s x) := by
+theorem releaseHeldActive_keeps (s : State) (x : Proxy) (qir : Bool) :
+    Keeps [(x.pt, x.name)] s (releaseHeldActive s x qir) := by
   unfold releaseHeldActive
   simp only
   split
@@ -305,29 +307,29 @@ theorem remove_keeps (g : Graph) (s : State) (x : Proxy) :
     Keeps ((x.pt, x.name) :: succKey g (x.pt, x.name)) s (remove g s x) := by
   unfold remove
   simp only
-  have h1 : Keeps ((x.pt, x.name) :: succKey g (x.pt, x.name)) s (releaseHeldActive s x) :=
-    (releaseHeldActive_keeps s x).mono (fun k hk => by
+  have h1 : Keeps ((x.pt, x.name) :: succKey g (x.pt, x.name)) s (releaseHeldActive s x g.releaseQueueIfReady) :=
+    (releaseHeldActive_keeps s x g.releaseQueueIfReady).mono (fun k hk => by
       rw [List.mem_singleton.mp hk]; exact List.mem_cons_self)
   -- the proxy looked up again is filed under the same key
-  have hkey : ((releaseHeldActive s x).get? x.pt x.name).getD x = ((releaseHeldActive s x).get? x.pt x.name).getD x := rfl
-  generalize hx' : ((releaseHeldActive s x).get? x.pt x.name).getD x = x' at hkey
+  have hkey : ((releaseHeldActive s x g.releaseQueueIfReady).get? x.pt x.name).getD x = ((releaseHeldActive s x g.releaseQueueIfReady).get? x.pt x.name).getD x := rfl
+  generalize hx' : ((releaseHeldActive s x g.releaseQueueIfReady).get? x.pt x.name).getD x = x' at hkey
   have hk' : x'.pt = x.pt ∧ x'.name = x.name := by
-    cases hq : (releaseHeldActive s x).get? x.pt x.name with
+    cases hq : (releaseHeldActive s x g.releaseQueueIfReady).get? x.pt x.name with
     | none => rw [hq] at hx'; simp only [Option.getD_none] at hx'; rw [← hx']; exact ⟨rfl, rfl⟩
     | some y =>
       rw [hq] at hx'; simp only [Option.getD_some] at hx'; rw [← hx']
       exact get?_some_key _ _ _ _ hq
   rw [hk'.1, hk'.2]
-  have h2 : Keeps ((x.pt, x.name) :: succKey g (x.pt, x.name)) (releaseHeldActive s x)
-      (if (!x'.flows.isEmpty && x'.runahead) = true then spawnNextParentless g (releaseHeldActive s x) x'
-       else releaseHeldActive s x) := by
+  have h2 : Keeps ((x.pt, x.name) :: succKey g (x.pt, x.name)) (releaseHeldActive s x g.releaseQueueIfReady)
+      (if (!x'.flows.isEmpty && x'.runahead) = true then spawnNextParentless g (releaseHeldActive s x g.releaseQueueIfReady) x'
+       else releaseHeldActive s x g.releaseQueueIfReady) := by
     split
-    · have := spawnNextParentless_keeps g (releaseHeldActive s x) x'
+    · have := spawnNextParentless_keeps g (releaseHeldActive s x g.releaseQueueIfReady) x'
       rw [hk'.1, hk'.2] at this
       exact this.mono (fun k hk => List.mem_cons_of_mem _ hk)
     · exact Keeps.refl _ _
-  generalize (if (!x'.flows.isEmpty && x'.runahead) = true then spawnNextParentless g (releaseHeldActive s x) x'
-       else releaseHeldActive s x) = s2 at h2 ⊢
+  generalize (if (!x'.flows.isEmpty && x'.runahead) = true then spawnNextParentless g (releaseHeldActive s x g.releaseQueueIfReady) x'
+       else releaseHeldActive s x g.releaseQueueIfReady) = s2 at h2 ⊢
   split
   · exact h1.trans h2
   · refine (h1.trans h2).trans ?_
@@ -346,16 +348,16 @@ theorem remove_keeps (g : Graph) (s : State) (x : Proxy) :
 theorem remove_get?_none (g : Graph) (s : State) (x : Proxy) : (remove g s x).get? x.pt x.name = none := by
   unfold remove
   simp only
-  generalize hx' : ((releaseHeldActive s x).get? x.pt x.name).getD x = x'
+  generalize hx' : ((releaseHeldActive s x g.releaseQueueIfReady).get? x.pt x.name).getD x = x'
   have hk' : x'.pt = x.pt ∧ x'.name = x.name := by
-    cases hq : (releaseHeldActive s x).get? x.pt x.name with
+    cases hq : (releaseHeldActive s x g.releaseQueueIfReady).get? x.pt x.name with
     | none => rw [hq] at hx'; simp only [Option.getD_none] at hx'; rw [← hx']; exact ⟨rfl, rfl⟩
     | some y =>
       rw [hq] at hx'; simp only [Option.getD_some] at hx'; rw [← hx']
       exact get?_some_key _ _ _ _ hq
   rw [hk'.1, hk'.2]
-  generalize (if (!x'.flows.isEmpty && x'.runahead) = true then spawnNextParentless g (releaseHeldActive s x) x'
-       else releaseHeldActive s x) = s2
+  generalize (if (!x'.flows.isEmpty && x'.runahead) = true then spawnNextParentless g (releaseHeldActive s x g.releaseQueueIfReady) x'
+       else releaseHeldActive s x g.releaseQueueIfReady) = s2
   split
   · rename_i h
     simpa using h
